@@ -302,7 +302,7 @@ pub fn replay(args: &[String]) {
 	let len = 24usize;
 	for (si, (subject, p)) in ALL_SUBJECTS.iter().enumerate() {
 		let params = if *subject == "Conv" { json!([bits(1.0), bits(2.5), bits(0.5)]) } else { json!(p) };
-		for stream in 0..2u64 {
+		for stream in 0..3u64 {
 			let kind = input_kind(subject);
 			let mut g = Gen::new(seed * 7919 + si as u64 * 31 + stream, *subject == "RateOfChange" || kind == 'c');
 			let mut xs: Vec<In> = (0..len).map(|_| g.input(kind)).collect();
@@ -310,6 +310,12 @@ pub fn replay(args: &[String]) {
 				// ties and plateaus
 				for i in (3..len).step_by(3) {
 					xs[i] = xs[i - 1].clone();
+				}
+			}
+			if stream == 2 {
+				// movement, then a flat stretch longer than the (small) windows, then movement again
+				for i in 5..17 {
+					xs[i] = xs[4].clone();
 				}
 			}
 			// reference run: element-wise next on a fresh instance
